@@ -176,6 +176,35 @@ fn ord_name(o: Ordering) -> &'static str {
     }
 }
 
+/// Own notion of equality of two recipes, in two strengths. `strict` = false: a *necessary*
+/// condition for any equality of PlutusData (same kind, same constructor index, same number of
+/// children, same bytes; integers are not judged because the reading of negative bignums is not
+/// fixed by the property). `strict` = true: a *sufficient* condition (additionally integers have the
+/// same representation and bytes). Def/indef flags and the constructor-tag form never matter.
+fn model_eq(a: &PD, b: &PD, strict: bool) -> bool {
+    fn cidx(tag: u64, any: Option<u64>) -> u64 {
+        match tag {
+            121..=127 => tag - 121,
+            1280..=1400 => tag - 1280 + 7,
+            _ => any.unwrap_or(0),
+        }
+    }
+    match (a, b) {
+        (PD::Constr { tag: t1, any: a1, fields: f1, .. }, PD::Constr { tag: t2, any: a2, fields: f2, .. }) => {
+            cidx(*t1, *a1) == cidx(*t2, *a2) && f1.len() == f2.len() && f1.iter().zip(f2).all(|(x, y)| model_eq(x, y, strict))
+        }
+        (PD::Array { items: f1, .. }, PD::Array { items: f2, .. }) => {
+            f1.len() == f2.len() && f1.iter().zip(f2).all(|(x, y)| model_eq(x, y, strict))
+        }
+        (PD::Map { kvs: f1, .. }, PD::Map { kvs: f2, .. }) => {
+            f1.len() == f2.len() && f1.iter().zip(f2).all(|((k1, v1), (k2, v2))| model_eq(k1, k2, strict) && model_eq(v1, v2, strict))
+        }
+        (PD::Bytes(x), PD::Bytes(y)) => x == y,
+        (x, y) if x.family() == 3 && y.family() == 3 => !strict || x == y,
+        _ => false,
+    }
+}
+
 fn check_order(t: &Triple, obs: &mut Obs) -> Result<(), Fail> {
     let (bp, ch1) = pd::apply(&t.a, &t.e1);
     let (cp, ch2) = pd::apply(if t.chain { &bp } else { &t.a }, &t.e2);
@@ -201,6 +230,32 @@ fn check_order(t: &Triple, obs: &mut Obs) -> Result<(), Fail> {
                 "({0} == {1}) = {4} but cmp = {5:?} for {0}={2:?} {1}={3:?}",
                 names[i], names[j], pds[i], pds[j], vals[i] == vals[j], m[i][j]
             );
+        }
+    }
+    // equality is an equality of the *data*: it may not identify values of different kind,
+    // constructor index, arity or bytes, and it must identify values that differ only in def/indef
+    // flags and in the tag form (121.. / 1280.. / 102+index) of the same constructor index
+    for i in 0..3 {
+        for j in 0..3 {
+            if m[i][j] == Ordering::Equal {
+                pv_ensure!(
+                    model_eq(pds[i], pds[j], false),
+                    "order:equal-but-different-data",
+                    "{0} == {1} although they differ in kind / constructor index / arity / bytes: {0}={2:?} {1}={3:?}",
+                    names[i], names[j], pds[i], pds[j]
+                );
+            }
+            if model_eq(pds[i], pds[j], true) {
+                pv_ensure!(
+                    m[i][j] == Ordering::Equal,
+                    "order:same-data-not-equal",
+                    "{0} and {1} differ only in encoding choices but cmp = {4:?}: {0}={2:?} {1}={3:?}",
+                    names[i], names[j], pds[i], pds[j], m[i][j]
+                );
+                if i != j && pds[i] != pds[j] {
+                    obs.class("pair:same-data-different-encoding");
+                }
+            }
         }
     }
     for i in 0..3 {
@@ -424,7 +479,7 @@ pub fn run(s: &Session) {
         the value and >= 2 of the 3 pairs have the same top-level kind (so cmp had to look inside the payloads). Distinct = \
         distinct serialised recipe");
     s.assume("only representable values: Constr.tag in 121..=127|1280..=1400 with any_constructor=None, or tag 102 with Some (constr_index panics otherwise, documented as malformed)");
-    s.assume("no particular ranking between values is asserted, only the order laws; equality is the library's == (encoding-insensitive)");
+    s.assume("no particular ranking between values is asserted, only the order laws; for equality only a necessary condition (same kind, constructor index, arity, bytes) and a sufficient one (identical up to def/indef flags and constructor-tag form) are asserted; how integers of different representation compare is not judged");
 
     s.foreach("boundary-values", boundary_values(), false, |p, obs| check_roundtrip(p, obs));
     s.forall("roundtrip-and-chunking", s.pick(30_000, 1_000_000), || pd::pd(4), |p, obs| check_roundtrip(p, obs));
@@ -482,7 +537,7 @@ pub fn run(s: &Session) {
             "pd:constr-121..127", "pd:constr-1280..1400", "pd:constr-102", "pd:constr-indef", "pd:array-indef", "pd:array-def",
             "pd:map-indef", "pd:map-def", "pd:int-neg-beyond-i64", "pd:int-pos-beyond-i64", "pd:biguint-leading-zero",
             "pd:bignint-leading-zero", "pd:bytes-64", "pd:bytes-65", "pd:bytes-gt128", "has-string-gt64",
-            "pair:mixed-int-representation", "pair:same-kind:constr:eq", "pair:same-kind:constr:lt", "pair:same-kind:int:eq",
+            "pair:mixed-int-representation", "pair:same-data-different-encoding", "pair:same-kind:constr:eq", "pair:same-kind:constr:lt", "pair:same-kind:int:eq",
             "pair:same-kind:map:gt", "pair:same-kind:array:lt", "pair:same-kind:bytes:gt", "rechunk:strings-chunked:2",
             "flags-flipped:2",
         ] {
